@@ -1,5 +1,6 @@
 """C01 - worker budget and legal trial life cycle in every tuning run."""
 import ast
+import re
 
 from ..core.model import AnchorError, FuncInfo
 from ..core.cfg import walk_shallow, cfg_of
@@ -152,6 +153,13 @@ def s5(ctx, rep, clause="S5"):
     P = ctx.P
     f = P.method("Tuner", "_update_running_trials")
     cfg = cfg_of(f)
+    rv = [r.value.id for r in returns_of(f) if isinstance(r.value, ast.Name)]
+    if len(set(rv)) != 1:
+        raise AnchorError("Tuner._update_running_trials does not return its dictionary of finished trials")
+    dn = rv[0]
+
+    def has_dn(text):
+        return re.search(r"(?<![\w.])" + re.escape(dn) + r"(?!\w)", text) is not None
     c02.s1(ctx, rep, clause=clause)
     # per decision edge: required actions before returning to the loop head
     sites = ctx.calls_in(f, method="on_trial_result", recv="TrialScheduler")
@@ -179,12 +187,12 @@ def s5(ctx, rep, clause="S5"):
         ok = any(a[0] == "eq" and a[3] is True and (a[1].endswith("SchedulerDecision.STOP") or a[2].endswith("SchedulerDecision.STOP"))
                  for a in at) and any(a[0] == "eq" and a[3] is False and "Status.completed" in (a[1], a[2]) for a in at)
         extra = [a for a in at if not (a[0] == "eq" and ("SchedulerDecision.STOP" in a[1] + a[2] or "Status.completed" in (a[1], a[2])))
-                 and not (a[0] == "in" and "done_trials" in a[2])]
+                 and not (a[0] == "in" and has_dn(a[2]))]
         rep.put(ok and not extra, clause, "guarded_by", "Tuner._update_running_trials: stop_trial | decision == STOP and status != completed (only)",
                 f, c, "", f"stop_trial is guarded by {sorted(map(str, at))}: a STOP decision for a running trial may not reach the backend")
     # status loop: completed / failed / externally stopped
     for meth, pred, what in (
-            ("on_trial_complete", lambda a: a[0] == "in" and a[3] is False and "done_trials" in a[2], "trial_id not in done_trials"),
+            ("on_trial_complete", lambda a: a[0] == "in" and a[3] is False and has_dn(a[2]), "trial_id not in done_trials"),
             ("on_trial_error", lambda a: a[0] == "eq" and a[3] is True and ("Status.failed" in (a[1], a[2]) or "Status.stopped" in (a[1], a[2])),
              "status failed / stopped")):
         ss = ctx.calls_in(f, method=meth, recv="TrialScheduler")
@@ -214,12 +222,12 @@ def s5(ctx, rep, clause="S5"):
     # each of the three edges records the trial as done
     for n2, c in ctx.calls_in(f, method="on_trial_error", recv="TrialScheduler") + ctx.calls_in(f, method="on_trial_complete", recv="TrialScheduler"):
         rec = {n.id for n in cfg.nodes if n.kind == "stmt" and isinstance(n.ast, ast.Assign)
-               and any(isinstance(t, ast.Subscript) and "done_trials" in U(t.value) for t in n.ast.targets)}
+               and any(isinstance(t, ast.Subscript) and has_dn(U(t.value)) for t in n.ast.targets)}
         heads = [n.id for n in cfg.nodes if n.kind == "for" and any(s is cfg.nodes[n2].stmt for s in stmts_in(n.ast.body))]
         # from the start of the branch that contains the notification (either order inside the branch is fine)
         from ..engine import dominating_edges
         starts = [s for s, l in cfg.succ[n2]]
-        doms = [(t, c_, tr) for (t, c_, tr) in dominating_edges(cfg, n2) if "status" in U(c_) or "done_trials" in U(c_)]
+        doms = [(t, c_, tr) for (t, c_, tr) in dominating_edges(cfg, n2) if "Status." in U(c_) or has_dn(U(c_))]
         if doms:
             t_last = doms[-1][0]
             starts = [s for s, l in cfg.succ[t_last] if isinstance(l, tuple) and l[2] is doms[-1][2] and
